@@ -864,7 +864,7 @@ def lexers_check(fns, table):
         return _is_call(e, 'tag') and _lit(e[2][0]) == s_
 
     def report(f, what, props=('C06', 'C18')):
-        failures.append(fail(f.name, 'C06.lex.%s-%s' % (f.name, what[0]), what[1], list(props), f))
+        failures.append(fail(f.name, 'lex.%s-%s' % (f.name, what[0]), what[1], list(props), f))
 
     # ---- block comment
     f = table.get('block_comment')
@@ -971,6 +971,66 @@ def lexers_check(fns, table):
             decided.add('escaped_identifier_impl')
             if set(_lit(st[1][2][0])) != set(b' \t\r\n'):
                 report(f, ('ends-at-white-space', 'the identifier stops at %r instead of at blank, tab, CR, LF' % bytes(sorted(set(_lit(st[1][2][0]))))))
+    # ---- macro text: the body of a `define runs to the first line end that no backslash escapes
+    f = table.get('macro_text')
+    if f is None or not f.ast:
+        undecided.append('macro_text not found (anchor lost)')
+    else:
+        st = _lexer_steps(f)
+        checked += 1
+        parts = None
+        if len(st) == 1 and st[0][0] == 'call' and st[0][1][0] == 'var' and st[0][1][1] in ('many1', 'many0') and _is_call(st[0][2][0], 'alt'):
+            a_ = st[0][2][0][2]
+            parts = a_[0][1] if a_ and a_[0][0] == 'tuple' else a_
+        lits = []
+        if parts is not None:
+            for p_ in parts:
+                if _is_call(p_, 'tag') and _lit(p_[2][0]):
+                    lits.append(('tag', _lit(p_[2][0])))
+                elif _is_call(p_, 'is_not') and _lit(p_[2][0]):
+                    lits.append(('is_not', _lit(p_[2][0])))
+                else:
+                    parts = None
+                    break
+        if parts is None:
+            undecided.append('macro_text: not of the form many1(alt((tag(..), .., is_not(..))))')
+        else:
+            decided.add('macro_text')
+            BS, CR, LF = 92, 13, 10
+            other = [b for b in range(97, 123) if all(b not in l for _, l in lits)][:1] or [1]
+            alpha = sorted(set([BS, CR, LF] + other + [b for _, l in lits for b in l]))
+            bad = None
+            for b1 in alpha:
+                for b2 in [None] + alpha:
+                    for b3 in ([None] if b2 is None else [None] + alpha):
+                        nxt = [b for b in (b1, b2, b3) if b is not None]
+                        got = None
+                        for kind, l in lits:
+                            if kind == 'tag':
+                                if len(l) <= 3 and nxt[:len(l)] == list(l):
+                                    got = len(l)
+                                    break
+                                if len(l) > 3 and nxt == list(l[:len(nxt)]) and len(nxt) == 3:
+                                    got = 'unknown'
+                                    break
+                            elif b1 not in l:
+                                got = ('run', frozenset(l))
+                                break
+                        if b1 in (CR, LF):
+                            want = None
+                        elif b1 == BS:
+                            want = 2 if b2 == LF else 3 if (b2 == CR and b3 == LF) else 2 if b2 == CR else 1
+                        else:
+                            want = 'one-or-run'
+                        ok = (got == want) if want != 'one-or-run' else (got == 1 or (isinstance(got, tuple) and {BS, CR, LF} <= set(got[1])))
+                        if not ok and bad is None:
+                            bad = (b1, b2, b3, got, want)
+            if st[0][1][1] != 'many1':
+                pass            # an empty body is `opt(macro_text)`'s business either way
+            if bad:
+                b1, b2, b3, got, want = bad
+                report(f, ('runs-to-the-first-unescaped-line-end', 'at %r the body %s where the standard (22.5.1: a newline preceded by a backslash continues the text) wants %s' % (
+                    bytes(b for b in (b1, b2, b3) if b is not None), 'stops' if got is None else 'consumes %s' % (got,), 'it to stop' if want is None else 'it to consume %s' % (want,))), props=('C05', 'C11'))
     # ---- comment = one_line_comment | block_comment
     f = table.get('comment')
     if f is not None and f.ast:
